@@ -77,6 +77,11 @@ class Fault(Exception):
     pass
 
 
+class _Unsaveable:
+    def __reduce__(self):
+        raise TypeError('this object cannot be saved')
+
+
 class World:
     def __init__(self, desc, root_dir, modname_unique=True):
         self.desc = desc
@@ -291,7 +296,7 @@ class World:
             return _WRONG[kind]
         if fault == 'unserialisable':
             payload = dict(payload, bad=object())
-            if kind not in ('json', 'json_list', 'generator', 'generator_lazy'):
+            if kind not in ('json', 'json_list', 'generator', 'generator_lazy', 'list_of_numpy'):
                 raise Fault(f'{key} unserialisable n/a for {kind}')
         return self.encode(task, kind, payload, fault)
 
@@ -351,6 +356,10 @@ class World:
         if kind == 'dir0':
             return task.get_data_object()
         if kind == 'list_of_numpy':
+            if 'bad' in payload:
+                a = np.frombuffer(canon_json({k: v for k, v in payload.items() if k != 'bad'}), dtype=np.uint8).copy()
+                h = len(a) // 2
+                return [a[:h], a[h:], a[:3], _Unsaveable()]  # a LONGER list whose last element numpy cannot save
             a = np.frombuffer(raw, dtype=np.uint8).copy()
             h = len(a) // 2
             return [a[:h], a[h:]]
